@@ -1,6 +1,7 @@
 import CalVerif.Prim.Wire
 import CalVerif.Model.Ptg
 import CalVerif.Spec.Formula
+import CalVerif.Model.XlsxFormula
 /-! Driver for C14 (formula tokens → A1 text).
 
     requests (one per line) and replies:
@@ -14,6 +15,8 @@ import CalVerif.Spec.Formula
                                           both encodings of `toRpn e` (xls framed with cce), `renderA1`, and the
                                           two model decoders run on those bytes
       `toks <ctx> | <tok>;<tok>;…`      → same reply shape for a raw token list (text = `-`)
+      `xf <event> <event> …`            → model of xlsx `next_formula` on a worksheet part's XML events (wire form of
+                                          `verif_harness::xlsxw::ev_wire`): `ok <row>,<col>,<hex text> …` | `err:<class>`
     ctx    = `S=<hex>,<hex>… N=<hex>,… X=<int>,…`  sheet names / defined names (utf-8 hex; empty list: `S=`),
              XTI table as `itab_first` values.  The xlsb decoder receives the resolved extern-sheet table
              (`Formula.resolveExtern`: `sheets[itab_first]` for every XTI entry, the workbook reader's placeholders otherwise).
@@ -189,6 +192,38 @@ def replyFor (c : WireCtx) (toks : List Tok) (text : String) : String :=
 def splitBar (ws : List String) : List String × List String :=
   (ws.takeWhile (· ≠ "|"), (ws.dropWhile (· ≠ "|")).drop 1)
 
+/-! xlsx worksheet events (same wire form as the C01 driver) -/
+
+def natsOfHex (s : String) : Option XlsxCells.Bytes := (Wire.bytesOfHex s).map (·.map UInt8.toNat)
+
+def nameOfWire (s : String) : XlsxCells.Bytes := (s.toList.map fun ch => if ch = '.' then 58 else ch.toNat)
+
+def attrsOfWire (s : String) : Option XlsxCells.Attrs :=
+  if s = "-" then some [] else
+  (s.splitOn ",").mapM fun kv =>
+    match kv.splitOn "=" with
+    | [k, v] => (natsOfHex v).map fun b => (nameOfWire k, b)
+    | _ => none
+
+def evOfWire (w : String) : Option XlsxCells.Ev :=
+  if w = "o" then some .other else
+  match w.splitOn ":" with
+  | ["s", n, a] => (attrsOfWire a).map fun at_ => .start (nameOfWire n) at_
+  | ["e", n] => some (.stop (nameOfWire n))
+  | ["t", h] => (natsOfHex h).map .text
+  | _ => none
+
+def xfReply (ws : List String) : String :=
+  match (if ws = ["-"] then some [] else ws.mapM evOfWire) with
+  | none => "bad-request"
+  | some evs =>
+    match XlsxFormula.readFormulas evs with
+    | .ok cells =>
+      "ok" ++ String.join (cells.map fun c => s!" {c.1},{c.2.1},{Wire.hexOrDash (c.2.2.map UInt8.ofNat)}")
+    | .err e => "err:" ++ e
+    | .panic _ => "panic"
+    | .outOfFuel => "fuel"
+
 def handle (line : String) : String :=
   match Wire.words line with
   | ["col", n] => match n.toNat? with
@@ -211,6 +246,7 @@ def handle (line : String) : String :=
   | ["str16", h] => match Wire.bytesOfHex h with
     | some bs => utf8Hex (decodeUtf16 (units bs 0 (bs.length / 2)))
     | none => "bad-request"
+  | "xf" :: ws => xfReply ws
   | "enc" :: rest =>
     let (ctx, ex) := splitBar rest
     match parseCtx ctx, parseExpr ex with
